@@ -39,6 +39,17 @@ def transform_circuit(circuit: Circuit, w: float, w_resolution: float = 1e-3) ->
         node_zero_label=circuit.ground_node
     )
 
+def input_network(circuit: Circuit) -> Network:
+    # network of the dynamic model: every independent source is an input, whatever its nominal amplitude and frequency
+    from . import components as ccp
+    def as_input(component: Component) -> Component:
+        if component.type.endswith('voltage_source'):
+            return ccp.dc_voltage_source(id=component.id, nodes=component.nodes, V=1, R=float(component.value.get('R', 0)))
+        if component.type.endswith('current_source'):
+            return ccp.dc_current_source(id=component.id, nodes=component.nodes, I=1, G=float(component.value.get('G', 0)))
+        return component
+    return transform_circuit(Circuit([as_input(c) for c in circuit.components]), w=0)
+
 def transform(circuit: Circuit, w: list[float] = [0], w_resolution: float = 1e-3) -> list[Network]:
     return [transform_circuit(circuit, w_, w_resolution) for w_ in w]
 
